@@ -1,22 +1,60 @@
 import PoolModel.Dec.Mut
+import PoolModel.Dec.Store
 import PoolModel.Sha256
 /-! Line-protocol driver of the C15 model (sidecar ticket encodings).
   `ser <ticket>`     → hex of `SerializeTicket`
   `enc <ticket>`     → hex of the bytes of `EncodeToString`
   `de <hex>`         → outcome of `DeserializeTicket`
   `dstr <hex>`       → outcome of `DecodeString` (hex of the string's bytes)
-  `mutbin <mode> <hex>` / `mutstr <mode> <hex>` → one outcome character per enumerated variant -/
+  `mutbin <mode> <hex>` / `mutstr <mode> <hex>` → one outcome character per enumerated variant
+  `sdb reset | add <ticket> | upd <ticket> | get <id> <key|~> | byid <id> | all` → the ticket store of
+  clientdb/sidecar.go (state = the bucket) -/
 namespace Pool.C15
 open Pool.Dec Pool.Util
 
-abbrev DrvSt := Unit
-def drvInit : DrvSt := ()
+abbrev DrvSt := SBucket
+def drvInit : DrvSt := []
 
 def cfg : Cfg := repoCfg goMaxAlloc
 def H : Bytes → Bytes := Pool.Sha256.sha256
 
+def fmtSRes {α : Type} (f : α → String) : SRes α → String
+  | .ok a => "ok " ++ f a
+  | .noKey => "err nokey"
+  | .exists_ => "err exists"
+  | .noSidecar => "err nosidecar"
+  | .codec e => "err codec-" ++ e.name
+  | .panic => "panic"
+
+def fmtTickets (ts : List Ticket) : String :=
+  if ts.isEmpty then "-" else joinWith "|" (ts.map fmtTicket)
+
 def drvStep (s : DrvSt) (args : List String) : DrvSt × String :=
   match args with
+  | ["sdb", "reset"] => ([], "ok")
+  | ["sdb", "add", t] =>
+    match parseTicket t with
+    | some t =>
+      match addSidecar s t with
+      | .ok s' => (s', "ok -")
+      | r => (s, fmtSRes (fun _ => "-") r)
+    | none => (s, "bad-op")
+  | ["sdb", "upd", t] =>
+    match parseTicket t with
+    | some t =>
+      match updateSidecar s t with
+      | .ok s' => (s', "ok -")
+      | r => (s, fmtSRes (fun _ => "-") r)
+    | none => (s, "bad-op")
+  | ["sdb", "get", id, k] =>
+    match unhexN 8 id, unhexOptN 33 k with
+    | some id, some k => (s, fmtSRes fmtTicket (sidecarGet cfg s id k))
+    | _, _ => (s, "bad-op")
+  | ["sdb", "byid", id] =>
+    match unhexN 8 id with
+    | some id => (s, fmtSRes fmtTickets (sidecarsByID cfg s id))
+    | none => (s, "bad-op")
+  | ["sdb", "all"] => (s, fmtSRes fmtTickets (sidecars cfg s))
   | ["ser", t] =>
     match parseTicket t with
     | some t => (s, fmtOutcome hex (serializeTicket t))
